@@ -296,7 +296,7 @@ pub fn san_fuzz(w: &World, seed: u64, cx: &mut Ctx) -> R {
             check_read(w, &text, cx)?;
         }
     }
-    for t in ["", "+", "#", "x", "=", "O", "O-", "O-O-", "O-O-O-O", "é", "🙂e4", "e4🙂", "\u{0}", "e9", "i4", "Ke", "=Q", "e8=", "e8=K", "e1=Q"] {
+    for t in ["O-O", "O-O-O", "O-O+", "O-O-O#", "", "+", "#", "x", "=", "O", "O-", "O-O-", "O-O-O-O", "é", "🙂e4", "e4🙂", "\u{0}", "e9", "i4", "Ke", "=Q", "e8=", "e8=K", "e1=Q"] {
         check_read(w, t, cx)?;
     }
     Ok(())
